@@ -34,9 +34,7 @@ TRead == /\ pc = "reader" /\ ~fin /\ ~RDone /\ RStep
          /\ UNCHANGED <<evars, pc, prog, pi, elog1, tid, fin, bad>>
 
 ReaderVerdict ==
-  IF ~WellFormed(rlines) THEN
-       IF T.err \in {"", "RuntimeError"} THEN <<"EXCLUDED", "ill-formed splicer file">>
-       ELSE <<"REJECT", "internal error on ill-formed file", T.err>>
+  IF ~WellFormed(rlines) THEN <<"EXCLUDED", "ill-formed splicer file", T.err>>
   ELSE IF T.err # "" THEN <<"REJECT", "well-formed file rejected", T.err>>
   ELSE IF ~ReaderContract THEN <<"REJECT", "model violates its own contract">>
   ELSE LET o == StoreOf(T.store) IN
